@@ -992,6 +992,34 @@ func samePark(a, b park) bool {
 	return true
 }
 
+// workersInFlush samples the worker goroutines that route.NewGrafanaNet started from goroutine `creator` (the one
+// running this case) and returns those that are inside retryFlush: sending a batch, waiting for or reading a
+// response (a 1 MiB body takes the race detector seconds on a loaded machine, long after the endpoint's handler
+// wrote it out), or sleeping in a backoff. While there is one, an idle endpoint does not mean nobody is working.
+func workersInFlush(creator int64) []string {
+	mark := fmt.Sprintf("route.NewGrafanaNet in goroutine %d\n", creator)
+	var out []string
+	for _, blk := range strings.Split(allStacks(), "\n\n") {
+		if !strings.Contains(blk, "route.(*GrafanaNet).retryFlush(") || !strings.Contains(blk+"\n", mark) {
+			continue
+		}
+		m := hdrRe.FindStringSubmatch(blk)
+		if m == nil {
+			continue
+		}
+		lines := strings.Split(blk, "\n")
+		top := ""
+		if len(lines) > 1 {
+			top = lines[1]
+			if k := strings.LastIndex(top, "("); k > 0 {
+				top = top[:k]
+			}
+		}
+		out = append(out, fmt.Sprintf("goroutine %s [%s] %s", m[1], m[2], top))
+	}
+	return out
+}
+
 // ---------------------------------------------------------------- running a case
 
 type dispatcher struct {
@@ -1046,6 +1074,7 @@ func line(caseIdx, series, seq int) []byte {
 
 func runCase(res *mon.Result, st *stats17, c *ccase, scratch string) {
 	started := time.Now()
+	caseGid := goid() // NewGrafanaNet is called from this goroutine: its workers say "created by ... in goroutine <caseGid>"
 	srv := newServer(c)
 	defer srv.close()
 	viol := func(sig string, extra map[string]interface{}, format string, a ...interface{}) {
@@ -1207,6 +1236,12 @@ watch:
 				res.Inconclusive(fmt.Sprintf("case %d: a Dispatch call lasted > %v but the two stack samples do not show one parked frame (%s / %s)", c.Index, stallBound, p1.where(), p2.where()))
 				continue
 			}
+			if c.Blocking {
+				if busy := workersInFlush(caseGid); len(busy) > 0 {
+					st.add("stall_suspicions_dismissed_worker_in_flush", 1)
+					continue // a worker is still busy with a batch (its request, the response, a backoff): the buffer will be drained
+				}
+			}
 			ex := map[string]interface{}{"dispatcher": d, "sample1": p1, "sample2": p2, "calls_completed": calls}
 			if c.Blocking {
 				viol("dispatch-stuck", ex, "blocking Dispatch parked for > %v while the endpoint saw no request for > %v (nobody drains the buffer): %s", stallBound, stallBound, p2.where())
@@ -1318,6 +1353,15 @@ shutwait:
 		if !p1.parked() || !p2.parked() || !samePark(p1, p2) {
 			if time.Since(tCall) > 3*time.Minute {
 				res.Inconclusive(fmt.Sprintf("case %d: Shutdown has not returned after 3 minutes but the samples show no single parked frame (%s / %s)", c.Index, p1.where(), p2.where()))
+				break shutwait
+			}
+			continue
+		}
+		if busy := workersInFlush(caseGid); len(busy) > 0 {
+			// Shutdown waits for a worker that is still busy with a batch (its request, the response, a backoff)
+			st.add("stall_suspicions_dismissed_worker_in_flush", 1)
+			if time.Since(tCall) > 3*time.Minute {
+				res.Inconclusive(fmt.Sprintf("case %d: Shutdown has not returned after 3 minutes, the endpoint is idle, yet a worker is inside retryFlush: %s", c.Index, strings.Join(busy, "; ")))
 				break shutwait
 			}
 			continue
@@ -1696,7 +1740,7 @@ func main() {
 	res.Assume("'accepted' = Dispatch returned and the route's queue_full counter did not move for it (exact per call with a single dispatcher, by totals otherwise)")
 	res.Assume("bounded liveness: retry-until-acknowledged is judged after the fault script is exhausted (<= 6 decoded failures per batch) and the endpoint saw no request for 2s + 10x(flushMaxWait+timeout)")
 	res.Assume("the endpoint-idle clocks are extended by 3x the largest backoff the route may legitimately be sleeping in: 1ms x 1.5^k with k = scripted cap + the failures only the client saw (its flush error counter minus the failures the server dealt), all charged to one batch")
-	res.Assume("a stall is only reported when two goroutine stack samples 1s apart show the same goroutine parked at the same frames after >= 2s (Dispatch normally takes microseconds, Shutdown on an idle endpoint milliseconds)")
+	res.Assume("a stall is only reported when two goroutine stack samples 1s apart show the same goroutine parked at the same frames after >= 2s (Dispatch normally takes microseconds, Shutdown on an idle endpoint milliseconds), and - for Shutdown and blocking Dispatch, which legitimately wait for the workers - when a sample of the route's worker goroutines shows none of them inside retryFlush (busy with a request, a response or a backoff)")
 	scratch := mon.Scratch()
 	must := func(err error) {
 		if err != nil {
